@@ -285,6 +285,38 @@ def check_announced(model, rep):
     ok = len(comp) == 1 and any(isinstance(i, ast.Compare) and isinstance(i.ops[0], ast.NotIn) and src(i.comparators[0]) == 'self._replacements' for g in comp[0].generators for i in g.ifs)
     rep.ob('R13.5', init.key, init.where(comp[0]) if comp else init.where(), ok, 'unreplaced arguments are those whose name is not a parsed replacement key' if ok else
            'the unreplaced-arguments filter is not `name not in self._replacements`', statement='announce-unreplaced')
+    # order of the two steps: what is announced (handed to super().__init__) is join([filtered arguments of arg] + arguments of the
+    # replacements) - the filter applies to the operand's own table only; a name re-introduced by a replacement value (swap a<->b,
+    # a: 2 a) must stay announced
+    sup = [x for x in calls_in(init.node) if src(x.func) == 'super().__init__']
+    if len(sup) != 1 or not sup[0].args:
+        raise AnalysisError('_Replace.__init__: super().__init__ call not found')
+
+    def resolve(e, before):
+        # latest straight-line definition of a local name before line `before`
+        if isinstance(e, ast.Name):
+            defs = [s for s in find_stmts(init.body, lambda s: isinstance(s, ast.Assign)) if len(s.targets) == 1 and src(s.targets[0]) == e.id and s.lineno < before]
+            if defs:
+                d = max(defs, key=lambda s: s.lineno)
+                return d.value, d.lineno
+        return e, before
+    top, at = resolve(sup[0].args[-1], sup[0].lineno)
+    ok = isinstance(top, ast.Call) and method_name(top) == '_join_arguments' and len(top.args) == 1
+    detail = ''
+    if ok:
+        lst = top.args[0]
+        first = None
+        if isinstance(lst, ast.BinOp) and isinstance(lst.op, ast.Add) and isinstance(lst.left, ast.List) and len(lst.left.elts) == 1:
+            first, at1 = resolve(lst.left.elts[0], at)
+            rest = src(lst.right)
+            ok = isinstance(first, ast.DictComp) and src(first.generators[0].iter) == 'arg.arguments.items()' and \
+                any(isinstance(i, ast.Compare) and isinstance(i.ops[0], ast.NotIn) and src(i.comparators[0]) == 'self._replacements' for i in first.generators[0].ifs) and \
+                'self._replacements.values()' in rest and '.arguments' in rest
+        else:
+            ok = False
+    rep.ob('R13.5', init.key, init.where(sup[0]), ok, 'the announced table is join(operand\'s arguments without the replaced names, arguments of the replacement values): names re-introduced by a replacement stay announced' if ok else
+           'the table handed to super().__init__ is not join([operand arguments minus replaced names] + replacement arguments): if the replaced names are dropped after joining, an argument that a replacement '
+           'value re-introduces (swap a<->b, a: 2 a) disappears from .arguments and later replace/derivative/linearize by name skip it', statement='announce-order')
     # spaces check on replacements
     ok = any(isinstance(s, ast.If) and src(s.test) == 'new.spaces' and any(isinstance(b, ast.Raise) for b in s.body) for s in find_stmts(init.body, lambda s: isinstance(s, ast.If)))
     rep.ob('R13.5', init.key, init.where(), ok, 'replacements bound to a space are rejected' if ok else 'the `if new.spaces: raise` guard is gone', statement='replacement-spaces')
